@@ -23,14 +23,16 @@ Fail(what, c, info) ==
     PrintT("@@J" \o ToJson([kind |-> "fail", what |-> what, case |-> c.case, text |-> c.text, info |-> info]))
 
 BadNF(c) == {Universe[i].id : i \in {j \in DOMAIN Universe :
-                LET r == Eval3(c.ast, Universe[j]) h == NFHolds(c.nf, Universe[j]) IN ~((r[1] => h) /\ (h => r[2]))}}
+                LET r == Eval3(c.ast, Universe[j], Range(Universe)) h == NFHolds(c.nf, Universe[j]) IN ~((r[1] => h) /\ (h => r[2]))}}
 
 RunOK(c, r) == r.err = "" /\ ResultAllowed(Pops[r.layout + 1].files, c.ast, r.sort, r.limit, r.skip, Range(r.ids), r.res, r.more)
 
 CheckCase(c) ==
     IF c.hang THEN Fail("parse-hang", c, "")                           \* C14's matter; skipped here
     ELSE IF c.perr # "" THEN Fail("parse-error", c, c.perr)                 \* a generated well-formed query must parse (machinery)
-    ELSE IF c.unsup # "" THEN Fail("unsupported-normal-form", c, c.unsup)
+    ELSE IF c.unsup # "" /\ ~c.subq THEN Fail("unsupported-normal-form", c, c.unsup)
+    ELSE IF c.subq THEN     \* sub-queries: the normal form is not exported; only the search results are judged (C02)
+         \A i \in DOMAIN c.runs : RunOK(c, c.runs[i]) \/ Fail("C02.Result", c, ToJson(c.runs[i]))
     ELSE /\ (BadNF(c) = {} \/ Fail("C03.NormalForm", c, ToString(BadNF(c))))
          /\ (ImpossibleRight(c.ast, c.nf, Universe) \/ Fail("C03.Impossible", c, ""))
          /\ \A i \in DOMAIN c.runs :
